@@ -558,6 +558,96 @@ def dir (s : Sig) (c : Cfg) : List String :=
 
 end Cfg
 
+/-! ## Tag edits (tagging.py) and `materialize_defaults` on one node -/
+
+namespace Cfg
+
+/-- `tagging._validate_param_index`. -/
+def validateIndex (s : Sig) (i : Int) : Except Err Unit :=
+  if i < 0 then .error .indexError
+  else match s.vpStart with
+    | some _ => .ok ()
+    | none =>
+      match s[i.toNat]? with
+      | none => .error .indexError
+      | some p => if p.kind == .po || p.kind == .pk then .ok () else .error .indexError
+
+/-- `tagging._validate_argument_name` followed by the `index_to_key` normalisation. -/
+def tagKey (s : Sig) (c : Cfg) (k : Key) : Except Err Key :=
+  match k with
+  | .name n => if s.validName n then .ok k else .error .attributeError
+  | .idx i =>
+    match validateIndex s i with
+    | .error e => .error e
+    | .ok () => s.indexToKey i c.args
+
+def tagsOf (c : Cfg) (k : Key) : List Nat := (c.tags.get? k).getD []
+
+/-- `fdl.add_tag`. -/
+def addTag (s : Sig) (c : Cfg) (k : Key) (t : Nat) : Except Err Cfg :=
+  match tagKey s c k with
+  | .error e => .error e
+  | .ok key =>
+    let ts := tagInsert (c.tagsOf key) t
+    .ok (({ c with tags := c.tags.set key ts }).log key (.tags ts))
+
+/-- `fdl.remove_tag`. -/
+def removeTag (s : Sig) (c : Cfg) (k : Key) (t : Nat) : Except Err Cfg :=
+  match tagKey s c k with
+  | .error e => .error e
+  | .ok key =>
+    if !(c.tagsOf key).contains t then .error .valueError
+    else
+      let ts := (c.tagsOf key).filter (· != t)
+      .ok (({ c with tags := c.tags.set key ts }).log key (.tags ts))
+
+/-- `fdl.clear_tags`. -/
+def clearTags (s : Sig) (c : Cfg) (k : Key) : Except Err Cfg :=
+  match tagKey s c k with
+  | .error e => .error e
+  | .ok key => .ok (({ c with tags := c.tags.set key [] }).log key (.tags []))
+
+def addTags (s : Sig) (k : Key) : Cfg → List Nat → Except Err Cfg
+  | c, [] => .ok c
+  | c, t :: r =>
+    match c.addTag s k t with
+    | .ok c' => addTags s k c' r
+    | .error e => .error e
+
+/-- `fdl.set_tags`: clear, add each, then one more UPDATE_TAGS entry. -/
+def setTags (s : Sig) (c : Cfg) (k : Key) (ts : List Nat) : Except Err Cfg :=
+  match c.clearTags s k with
+  | .error e => .error e
+  | .ok c1 =>
+    match addTags s k c1 ts with
+    | .error e => .error e
+    | .ok c2 =>
+      match tagKey s c2 k with
+      | .error e => .error e
+      | .ok key => .ok (c2.log key (.tags (c2.tagsOf key)))
+
+/-- `materialize_defaults` on one Buildable: every parameter that has a default and no stored
+    value is set to its default (positional-only ones by index). -/
+def materializeLoop (s : Sig) : List Param → Nat → Cfg → Except Err Cfg
+  | [], _, c => .ok c
+  | p :: ps, i, c =>
+    if !p.dflt then materializeLoop s ps (i + 1) c
+    else if p.kind == .po then
+      if c.args.contains (.idx i) then materializeLoop s ps (i + 1) c
+      else
+        match c.setItem s i (Sig.dfltVal p) with
+        | .ok c' => materializeLoop s ps (i + 1) c'
+        | .error e => .error e
+    else if c.args.contains (.name p.name) then materializeLoop s ps (i + 1) c
+    else
+      match c.setAttr s p.name (Sig.dfltVal p) with
+      | .ok c' => materializeLoop s ps (i + 1) c'
+      | .error e => .error e
+
+def materializeDefaults (s : Sig) (c : Cfg) : Except Err Cfg := materializeLoop s s 0 c
+
+end Cfg
+
 /-! ## The constructor: `signature.bind_partial` + canonicalisation -/
 
 /-- `inspect.Signature.bind_partial(*args, **kwargs).arguments` followed by the re-keying of
